@@ -33,6 +33,11 @@ CHECKS = {
             'Random histories (<=25/40 ops) on small sets (0-12 items over a 14-item universe) and large ones (40/100/400/3500 items, so the dead-interval bookkeeping is exercised below and above its compaction thresholds: >1/8 dead, >384 intervals), including macro-operations that remove runs, tails and slots adjacent to earlier removals in every order; after every step list(s), len, reversed, s[i] for every valid index (sampled above 64 items, always including the neighbourhood of recent removals), index() of every item, membership/count and drawn slices are compared with a plain list; n-ary union/intersection/difference, symmetric_difference, operators (also reflected with a real set on the left), in-place forms and predicates are compared with Python sets including result order.',
             'Trusts list/set semantics of CPython as the oracle; indices outside the valid range, negative slice steps and self-as-operand are not generated.',
             'DESIGN.md section 2, C11'),
+    'C10': ('exploration',
+            'differential + model-based testing: Hypothesis-generated add/remove/pop/peek histories run in lock-step on both queue classes and a reference list model, full drain compared; BarrelList compared with list',
+            'Random histories with tie-heavy priorities and frequent re-adds/removes are applied to HeapPriorityQueue, SortedPriorityQueue and a reference (min over live (effective priority, arrival counter)); every return value/exception type and len is compared at each step and both queues are drained at the end. Because the sorted back end only splits into sub-lists above ~22000 entries, histories are run (a) with the BarrelList split factor scaled down so splitting happens with ~10 entries, (b) at the real factor with 23k-60k bulk entries (6 cases in quick, 320 in thorough), and (c) the BarrelList itself is compared with list for insert/append/extend/pop/getitem/index/bisect.insort histories.',
+            'Scaling relies on the tuning constant BarrelList._size_factor (falls back to real scale if absent); reference model trusted; custom priority_key not generated.',
+            'DESIGN.md section 2, C10'),
 }
 
 NOT_YET = 'check not built yet in this revision of /verif (work in progress; see DESIGN.md section 8)'
